@@ -136,7 +136,8 @@ def cmd_check(prop: str, tier: str) -> int:
         "not_decided": getattr(mod, "NOT_DECIDED", ""),
         "assumptions": getattr(mod, "ASSUMPTIONS", []),
     }
-    write_evidence(prop, tier, seed, result, meta, time.time() - t0, len(fresh), st, printed)
+    if not os.environ.get("ACSA_NO_EVIDENCE"):  # development runs against a deliberately broken tree
+        write_evidence(prop, tier, seed, result, meta, time.time() - t0, len(fresh), st, printed)
     print(f"[acsa] property={prop} {'HOLDS' if rc == 0 else ('VIOLATED' if rc == 1 else 'UNDECIDED')} wall={time.time() - t0:.2f}s")
     return rc
 
